@@ -54,7 +54,7 @@ def mkLines : List Text → List Line
 def fileLines (t : Text) : List Line := mkLines (splitOn '\n' t)
 
 /-- the exception classes that matter: what `except (ValueError, IndexError)` catches and what not -/
-inductive Exc | value | index | assertion
+inductive Exc | value | index | assertion | decode
   deriving Repr, DecidableEq
 
 /-- a measurement line (measurement.py:50-60 `from_str_list`): the fields the loader looks at -/
@@ -329,6 +329,33 @@ def loadFrom (v : Variant) (st : LState) : List Rec → Except End LState
     | .error e => .error e
 
 def load (v : Variant) (rs : List Rec) : Except End LState := loadFrom v LState.init rs
+
+/-! ### decoding the file
+
+The text of the model is the file's bytes, one character per byte.  Python reads the data file
+in text mode (UTF-8): the loader of the tree before the repair lets a byte sequence that is not
+valid UTF-8 raise `UnicodeDecodeError` while it iterates over the lines (outside the tolerant
+block); the repaired loader opens the file with `errors="replace"`. -/
+
+/-- UTF-8 well-formedness of a byte text (lead byte classes and continuation bytes; overlong forms
+and surrogates are not distinguished) -/
+def utf8Go (need : Nat) : Text → Bool
+  | [] => need == 0
+  | c :: cs =>
+    let b := c.toNat
+    if need = 0 then
+      if b < 0x80 then utf8Go 0 cs
+      else if 0xC2 ≤ b && b < 0xE0 then utf8Go 1 cs
+      else if 0xE0 ≤ b && b < 0xF0 then utf8Go 2 cs
+      else if 0xF0 ≤ b && b < 0xF5 then utf8Go 3 cs
+      else false
+    else if 0x80 ≤ b && b < 0xC0 then utf8Go (need - 1) cs else false
+
+def utf8Valid (t : Text) : Bool := utf8Go 0 t
+
+/-- loading a file given as bytes -/
+def loadText (decodeTolerant : Bool) (v : Variant) (pl : Payloads) (hdr : Text) (t : Text) : Except End LState :=
+  if decodeTolerant || utf8Valid t then load v (records v pl hdr t) else .error (.crash .decode)
 
 /-- `RunId.completed_invocations` after loading (run_id.py:253-258, 139-141) -/
 def maxInv (loaded : List DP) (r : Nat) : Nat :=
